@@ -121,7 +121,11 @@ NumExt(vs, i, best, wantMin) ==
   ELSE NumExt(vs, i + 1, IF (wantMin /\ NumLess(vs[i], best)) \/ (~wantMin /\ NumLess(best, vs[i])) THEN vs[i] ELSE best, wantMin)
 
 Aggregate(f, args, ps, env) ==
-  LET vals == [i \in 1..Len(ps) |-> IF Len(args) >= 1 THEN Eval(args[1], ps[i], env) ELSE VUnspec]
+  LET raw  == [i \in 1..Len(ps) |-> IF Len(args) >= 1 THEN Eval(args[1], ps[i], env) ELSE VUnspec]
+      \* the numeric aggregates read a text argument the way int() / float() do (integer text = integer, else float text)
+      vals == IF f \in {"sum", "avg", "min", "max"}
+              THEN [i \in 1..Len(raw) |-> IF raw[i].t = "s" THEN (IF IsIntText(raw[i].s) THEN VInt(IntOfText(raw[i].s)) ELSE FloatOfText(raw[i].s)) ELSE raw[i]]
+              ELSE raw
       allNum == \A i \in 1..Len(vals) : IsNum(vals[i])
   IN CASE f = "count" -> VInt(Len(ps))
        [] f = "sum" -> IF allNum THEN NumSum(vals, 2, vals[1]) ELSE VUnspec
